@@ -1378,6 +1378,15 @@ class written_params:
                 c = torch.nn.Parameter(c, requires_grad=old.requires_grad)
             d[name] = c
             carriers.append((c, sym))
+            # tensors of the same module that share the storage of the replaced one keep sharing it (see swapped_params)
+            if isinstance(old, torch.Tensor) and old.numel() > 0:
+                for d2 in (mod._parameters, mod._buffers, mod.__dict__):
+                    for n2, t2 in list(d2.items()):
+                        if (d2 is d and n2 == name) or not isinstance(t2, torch.Tensor) or isinstance(t2, SymTensor):
+                            continue
+                        if t2 is old or (t2.shape == old.shape and t2.numel() > 0 and t2.data_ptr() == old.data_ptr()):
+                            self.saved.append((d2, n2, t2))
+                            d2[n2] = c if t2.requires_grad else c.detach()
         if self.prefix is not None:
             self.prefix()
         for c, sym in carriers:
